@@ -284,11 +284,11 @@ def gen_strategy(rng, tier, est_steps):
     """Swarm: one scheduling strategy per run."""
     r = rng.random()
     if r < 0.5:
-        if tier == 'thorough':
+        if tier == 'thorough' or est_steps > 1500:
             p = rng.choice([0.003, 0.01, 0.03, 0.1, 0.3])
         else:
             p = rng.choice([0.03, 0.1, 0.2, 0.4])
-        return {'kind': 'random', 'p': p, 'burst': rng.choice([0, 0, 10, 100, 1000] if tier == 'thorough' else [0, 0, 5, 30])}
+        return {'kind': 'random', 'p': p, 'burst': rng.choice([0, 0, 10, 100, 1000] if (tier == 'thorough' or est_steps > 1500) else [0, 0, 5, 30])}
     if r < 0.8:
         return {'kind': 'pct', 'd': rng.choice([1, 2, 3]), 'est': est_steps}
     return {'kind': 'rr', 'q': rng.choice([1, 2, 3, 5, 8, 13, 40])}
